@@ -585,7 +585,7 @@ theorem accept_drive (idna : Idna) (a b c : Nat) (chk : List Nat)
     simp [Impl.isWindowsDriveAbsolutePath, hd, hc]
   rw [urlFromFilePath_windows, if_neg (by simp), winClassify_noslash a _ ha3]
   simp only [Bool.false_eq_true, if_false, hdr]
-  rw [if_neg (by simp [hdd, h0]), List.append_assoc, List.singleton_append,
+  rw [if_neg (by simp [hdd, h0]), List.append_assoc, List.singleton_append, rejectDotHost_file3,
     parse_file_url idna _ (fun x hx => by
       have := raw_safe _ hall x hx; unfold SafeRaw at this; omega)]
 
